@@ -173,7 +173,7 @@ def gen(rng, tier, index):
 def _bench(mps):
     def factory():
         from luna.gateware.interface.utmi import UTMIInterface
-        from luna.gateware.usb.devices.acm import USBSerialDevice
+        from luna.full_devices import USBSerialDevice          # the documented import shortcut (luna/full_devices.py)
         utmi = UTMIInterface()
         dev = USBSerialDevice(bus=utmi, idVendor=0x16d0, idProduct=0x0f3b, max_packet_size=mps)
         ins = {n: getattr(utmi, n) for n in ["rx_data", "rx_active", "rx_valid", "tx_ready", "line_state", "session_end", "vbus_valid"]}
